@@ -24,8 +24,12 @@ def _lines(out, n):
     return ls
 
 
-def run_impl(ops, timeout=1800, mem='4GiB'):
+IMPL_TIMEOUT = {'s': 1800}
+
+
+def run_impl(ops, timeout=None, mem='4GiB'):
     """the real code (harness child process); a crash or hang ends the stream early"""
+    timeout = timeout or IMPL_TIMEOUT['s']
     env = dict(GOENV, GOMEMLIMIT=mem)
     data = ('\n'.join(ops) + '\n').encode()
     # the library logs to stderr: keep it out of the stream
@@ -88,15 +92,34 @@ def first_bad(st, tie_eq, oracle):
     return None
 
 
+# time the whole check may spend minimising counterexamples (a change that makes every replay hit
+# the implementation's deadlines would otherwise cost minutes per candidate); set by main per tier
+SHRINK_SECONDS = {'total': 240.0, 'each': 90.0, 'spent': 0.0}
+
+
 def shrink(ops, fails, budget=400):
-    """delta debugging on an op list whose first line is the reset; `fails(ops)` → bool"""
+    """delta debugging on an op list whose first line is the reset; `fails(ops)` → bool.
+    Bounded by calls and by wall-clock time: what is returned still fails, it may just not be minimal."""
+    import time as _t
+    t0 = _t.time()
+
+    def out_of_time():
+        el = _t.time() - t0
+        return el > SHRINK_SECONDS['each'] or SHRINK_SECONDS['spent'] + el > SHRINK_SECONDS['total']
+    try:
+        return _shrink(ops, fails, budget, out_of_time)
+    finally:
+        SHRINK_SECONDS['spent'] += _t.time() - t0
+
+
+def _shrink(ops, fails, budget, out_of_time):
     head, body = ops[:1], ops[1:]
     calls = 0
     chunk = max(1, len(body) // 2)
-    while chunk >= 1 and calls < budget:
+    while chunk >= 1 and calls < budget and not out_of_time():
         i = 0
         progressed = False
-        while i < len(body) and calls < budget:
+        while i < len(body) and calls < budget and not out_of_time():
             cand = body[:i] + body[i + chunk:]
             calls += 1
             if fails(head + cand):
